@@ -110,5 +110,160 @@ func init() {
 			okOrder = i1 >= 0 && i2 > i1
 		}
 		ex.setBool("c02ReuseChanInstalledBeforeWrite", okOrder, rex != nil, "reusableConn.exchange installs the reply channel before writing the query")
+			// ---- the context the final select waits on is the caller's: no layer between ExchangeContext and the final
+		// select assigns to (or redeclares) its `ctx` parameter, hands anything but `ctx` down, or waits on another
+		// context's Done channel
+		ctxClean := func(fd *ast.FuncDecl, skipFuncLits bool) bool {
+			if fd == nil || fd.Type.Params == nil || len(fd.Type.Params.List) == 0 || len(fd.Type.Params.List[0].Names) != 1 ||
+				fd.Type.Params.List[0].Names[0].Name != "ctx" || ex.str(fd.Type.Params.List[0].Type) != "context.Context" {
+				return false
+			}
+			ok := true
+			ast.Inspect(fd.Body, func(x ast.Node) bool {
+				switch n := x.(type) {
+				case *ast.FuncLit:
+					if skipFuncLits {
+						return false
+					}
+					for _, f := range n.Type.Params.List {
+						for _, nm := range f.Names {
+							if nm.Name == "ctx" {
+								ok = false
+							}
+						}
+					}
+				case *ast.AssignStmt:
+					for _, l := range n.Lhs {
+						if id, isId := l.(*ast.Ident); isId && id.Name == "ctx" {
+							ok = false
+						}
+					}
+				case *ast.ValueSpec:
+					for _, nm := range n.Names {
+						if nm.Name == "ctx" {
+							ok = false
+						}
+					}
+				case *ast.RangeStmt:
+					for _, e := range []ast.Expr{n.Key, n.Value} {
+						if id, isId := e.(*ast.Ident); isId && id.Name == "ctx" {
+							ok = false
+						}
+					}
+				case *ast.CallExpr:
+					if sel, isSel := n.Fun.(*ast.SelectorExpr); isSel {
+						switch sel.Sel.Name {
+						case "ExchangeReserved", "exchange", "ExchangeContext":
+							if len(n.Args) == 0 || ex.str(n.Args[0]) != "ctx" {
+								ok = false
+							}
+						case "Done":
+							if len(n.Args) == 0 && ex.str(sel.X) != "ctx" && !strings.HasSuffix(ex.str(sel.X), "Wg") && !strings.HasSuffix(ex.str(sel.X), "wg") {
+								ok = false // another context's Done channel (sync.WaitGroup.Done is not one)
+							}
+						}
+					}
+				}
+				return true
+			})
+			return ok
+		}
+		const lrel = "pkg/upstream/transport/conn_lazy_dial.go"
+		const prel = "pkg/upstream/transport/pipeline.go"
+		const qrel = "pkg/upstream/transport/conn_quic.go"
+		path := []*ast.FuncDecl{
+			ex.fn(prel, "PipelineTransport", "ExchangeContext"),
+			ex.fn(lrel, "lazyDnsConnEarlyReservedExchanger", "ExchangeReserved"),
+			ex.fn(trel, "tdcOneTimeExchanger", "ExchangeReserved"),
+			ex.fn(trel, "TraditionalDnsConn", "exchange"),
+			ex.fn(qrel, "quicReservedExchanger", "ExchangeReserved"),
+			ex.fn(rrel, "ReuseConnTransport", "ExchangeContext"),
+			ex.fn(rrel, "reusableConn", "exchange"),
+		}
+		all, known := true, true
+		for _, fd := range path {
+			if fd == nil {
+				known = false
+				continue
+			}
+			if !ctxClean(fd, false) {
+				all = false
+			}
+		}
+		ex.setBool("c02CallerCtxReachesWait", all, known, "PipelineTransport.ExchangeContext, lazyDnsConnEarlyReservedExchanger.ExchangeReserved, tdcOneTimeExchanger.ExchangeReserved, TraditionalDnsConn.exchange, quicReservedExchanger.ExchangeReserved, ReuseConnTransport.ExchangeContext, reusableConn.exchange: the parameter `ctx` is never assigned or redeclared, it is what is handed to ExchangeReserved / exchange, and no other context's Done channel is waited on")
+		// ---- DoH
+		const drel = "pkg/upstream/doh/upstream.go"
+		dex := ex.fn(drel, "Upstream", "exchange")
+		toEOF := false
+		if dex != nil {
+			// every mention of resp.Body is `resp.Body.Close()` or the reader handed to io.LimitReader directly inside
+			// bb.ReadFrom(...) / io.ReadAll(...) (both read until EOF); the reply path reads up to dns.MaxMsgSize
+			allowed := map[ast.Node]bool{}
+			nReply := 0
+			ast.Inspect(dex.Body, func(x ast.Node) bool {
+				c, isCall := x.(*ast.CallExpr)
+				if !isCall {
+					return true
+				}
+				f := ex.str(c.Fun)
+				if f == "resp.Body.Close" && len(c.Args) == 0 {
+					allowed[c.Fun.(*ast.SelectorExpr).X] = true
+				}
+				if (f == "bb.ReadFrom" || f == "io.ReadAll") && len(c.Args) == 1 {
+					if lr, isLR := c.Args[0].(*ast.CallExpr); isLR && ex.str(lr.Fun) == "io.LimitReader" && len(lr.Args) == 2 && ex.str(lr.Args[0]) == "resp.Body" {
+						allowed[lr.Args[0]] = true
+						if f == "bb.ReadFrom" && ex.str(lr.Args[1]) == "dns.MaxMsgSize" {
+							nReply++
+						}
+					}
+				}
+				return true
+			})
+			other := 0
+			ast.Inspect(dex.Body, func(x ast.Node) bool {
+				if se, isSel := x.(*ast.SelectorExpr); isSel && ex.str(se) == "resp.Body" && !allowed[se] {
+					other++
+				}
+				return true
+			})
+			// ... and the payload returned is a copy of everything that was read: `copy(*payload, bb.Bytes())` with
+			// payload := pool.GetBuf(bb.Len())
+			ss := stmtStrings(ex, dex.Body)
+			i1, i2, i3 := indexOf(ss, "payload := pool.GetBuf(bb.Len())"), indexOf(ss, "copy(*payload, bb.Bytes())"), indexOf(ss, "return payload, nil")
+			nRet := 0
+			ast.Inspect(dex.Body, func(x ast.Node) bool {
+				if rs, isRet := x.(*ast.ReturnStmt); isRet && len(rs.Results) == 2 && ex.str(rs.Results[1]) == "nil" {
+					nRet++
+				}
+				return true
+			})
+			toEOF = nReply == 1 && other == 0 && i1 >= 0 && i2 > i1 && i3 > i2 && nRet == 1
+		}
+		ex.setBool("c02DohBodyReadToEOF", toEOF, dex != nil, "doh.(*Upstream).exchange: resp.Body is only closed or read through bb.ReadFrom(io.LimitReader(resp.Body, dns.MaxMsgSize)) / io.ReadAll(io.LimitReader(resp.Body, ..)) (until EOF); the single successful return hands back a copy of everything read")
+		dec := ex.fn(drel, "Upstream", "ExchangeContext")
+		waits := false
+		if dec != nil && ctxClean(dec, true) {
+			// the final select: `case <-ctx.Done()` and `case res := <-resChan`, resChan buffered (the worker never blocks)
+			v, ok := int64(0), false
+			ast.Inspect(dec.Body, func(x ast.Node) bool {
+				if as, isAs := x.(*ast.AssignStmt); isAs && len(as.Lhs) == 1 && ex.str(as.Lhs[0]) == "resChan" {
+					if c, isCall := as.Rhs[0].(*ast.CallExpr); isCall && ex.str(c.Fun) == "make" && len(c.Args) == 2 {
+						v, ok = ex.intLit(c.Args[1], nil)
+					}
+				}
+				return true
+			})
+			nSel := 0
+			for _, st := range dec.Body.List {
+				if sel, isSel := st.(*ast.SelectStmt); isSel && len(sel.Body.List) == 2 {
+					c0, c1 := sel.Body.List[0].(*ast.CommClause), sel.Body.List[1].(*ast.CommClause)
+					if c0.Comm != nil && c1.Comm != nil && ex.str(c0.Comm) == "<-ctx.Done()" && ex.str(c1.Comm) == "res := <-resChan" {
+						nSel++
+					}
+				}
+			}
+			waits = ok && v >= 1 && nSel == 1
+		}
+		ex.setBool("c02DohWaitsOnCallerCtx", waits, dec != nil, "doh.(*Upstream).ExchangeContext: outside the worker goroutine `ctx` is never reassigned; the final select waits on `<-ctx.Done()` and on the buffered result channel of the worker")
 	})
 }
